@@ -50,14 +50,25 @@ func (s *staticKeySet) VerifySignature(ctx context.Context, jws *jose.JSONWebSig
 	return jws.Verify(&key)
 }
 
-// jwksTransport answers every request with the JWKS document, in process.
+// jwksTransport answers every request with the JWKS document in force, in process, and remembers what it served.
 type jwksTransport struct {
-	body []byte
-	n    int
+	body   []byte
+	cur    []KeyEntry
+	n      int
+	served [][]KeyEntry // key set answered per fetch
+}
+
+func (t *jwksTransport) set(keys []KeyEntry) {
+	body, err := json.Marshal(jose.JSONWebKeySet{Keys: jwks(keys)})
+	if err != nil {
+		panic("harness: marshal jwks: " + err.Error())
+	}
+	t.body, t.cur = body, keys
 }
 
 func (t *jwksTransport) RoundTrip(r *http.Request) (*http.Response, error) {
 	t.n++
+	t.served = append(t.served, t.cur)
 	return &http.Response{
 		StatusCode: 200, Status: "200 OK", Proto: "HTTP/1.1", ProtoMajor: 1, ProtoMinor: 1,
 		Header: http.Header{"Content-Type": {"application/json"}}, Body: io.NopCloser(bytes.NewReader(t.body)),
@@ -84,12 +95,22 @@ func newStore(c Case) *vkit.Store {
 	}
 	st := vkit.NewStore([]*vkit.ClientSpec{mk("c1", c1keys), mk("c2", c2keys)}, vkit.SignKeySpec{KeyName: signer, Alg: alg, KID: "op-signing-key"}, vkit.StorePolicy{})
 	if !perClient(c.Kind) {
-		st.PubKeys = nil
-		for _, e := range c.Keys {
-			st.PubKeys = append(st.PubKeys, vkit.PubKeySpec{KeyName: e.Key, Alg: e.Alg, KID: e.KID, Use: e.Use})
-		}
+		storeKeys(st, c.Kind, c.Keys, nil)
 	}
 	return st
+}
+
+// storeKeys puts the key sets in force into the storage (what Storage.KeySet / GetKeyByIDAndClientID answer from now on).
+func storeKeys(st *vkit.Store, kind string, keys, keys2 []KeyEntry) {
+	if perClient(kind) {
+		st.Clients["c1"].Keys = entryMap(keys)
+		st.Clients["c2"].Keys = entryMap(keys2)
+		return
+	}
+	st.PubKeys = nil
+	for _, e := range keys {
+		st.PubKeys = append(st.PubKeys, vkit.PubKeySpec{KeyName: e.Key, Alg: e.Alg, KID: e.KID, Use: e.Use})
+	}
 }
 
 // ---- execution ------------------------------------------------------------------
@@ -129,29 +150,48 @@ func isNil(v any) bool {
 	return rv.Kind() == reflect.Ptr && rv.IsNil()
 }
 
-func execute(c Case, tok string, res *vkit.Result) []outcome {
+// instance is ONE long-lived verifier / key set / provider; every call of a case goes to it.
+type instance struct {
+	// setKeys: the key set the application / JWKS endpoint / storage serves from now on
+	setKeys func(keys, keys2 []KeyEntry)
+	// verify presents the token (times: how often in a row; >1 only for the warm rp-remote calls)
+	verify func(tok string, who string, times int, res *vkit.Result) []outcome
+	// mayHold (rp-remote): key sets the instance may still verify against besides the one served now (documented cache)
+	mayHold func() [][]KeyEntry
+}
+
+func newInstance(c Case) *instance {
 	ctx := context.Background()
+	one := func(o outcome) []outcome { return []outcome{o} }
 	switch c.Kind {
 	case kRPStatic, kRPRemote:
 		var ks oidc.KeySet
 		var tr *jwksTransport
-		calls := 1
+		in := &instance{}
 		if c.Kind == kRPStatic {
-			ks = &staticKeySet{keys: jwks(c.Keys), multi: c.MultiKS}
+			sks := &staticKeySet{keys: jwks(c.Keys), multi: c.MultiKS}
+			ks = sks
+			in.setKeys = func(keys, _ []KeyEntry) { sks.keys = jwks(keys) }
 		} else {
-			body, err := json.Marshal(jose.JSONWebKeySet{Keys: jwks(c.Keys)})
-			if err != nil {
-				panic("harness: marshal jwks: " + err.Error())
-			}
-			tr = &jwksTransport{body: body}
+			tr = &jwksTransport{}
+			tr.set(c.Keys)
 			hc := &http.Client{Transport: tr}
 			if c.SkipRemote {
 				ks = rp.NewRemoteKeySet(hc, issuer+"/keys", rp.SkipRemoteCheck())
 			} else {
 				ks = rp.NewRemoteKeySet(hc, issuer+"/keys")
 			}
-			if c.Warm {
-				calls = 3
+			in.setKeys = func(keys, _ []KeyEntry) { tr.set(keys) }
+			// The cache holds the answer of the last download. The goroutine that stores it (and retires the finished
+			// download) may lag behind the caller it woke up: the answer before the last one may then still be in the
+			// cache, and the last answer - even one without keys - may be handed out once more instead of a new download
+			// (observed under load). Both answers count as "may hold"; how the cache is refreshed is property C13's subject.
+			in.mayHold = func() [][]KeyEntry {
+				var out [][]KeyEntry
+				for i := len(tr.served) - 1; i >= 0 && i >= len(tr.served)-2; i-- {
+					out = append(out, tr.served[i])
+				}
+				return out
 			}
 		}
 		var opts []rp.VerifierOption
@@ -159,65 +199,95 @@ func execute(c Case, tok string, res *vkit.Result) []outcome {
 			opts = append(opts, rp.WithSupportedSigningAlgorithms(c.Algs...))
 		}
 		v := rp.NewIDTokenVerifier(issuer, rpClient, ks, opts...)
-		var outs []outcome
-		for i := 0; i < calls; i++ {
-			before := 0
-			if tr != nil {
-				before = tr.n
-			}
-			claims, err := rp.VerifyIDToken[*oidc.IDTokenClaims](ctx, tok, v)
-			o := outcome{Accepted: err == nil, Err: errStr(err)}
-			if err == nil {
-				o.View = viewOfObj(c.Kind, claims)
-			} else if !isNil(claims) {
-				res.Fail("C02:claims-with-error:"+c.Kind, "claims returned together with error %v", err)
-			}
-			if tr != nil {
-				o.Note = fmt.Sprintf("call=%d fetches=%d", i, tr.n-before)
-				if i > 0 && tr.n == before {
-					res.Label("remote:served-from-cache")
-				} else {
-					res.Label("remote:fetched")
+		in.verify = func(tok, _ string, times int, res *vkit.Result) []outcome {
+			var outs []outcome
+			for i := 0; i < times; i++ {
+				before := 0
+				if tr != nil {
+					before = tr.n
 				}
+				claims, err := rp.VerifyIDToken[*oidc.IDTokenClaims](ctx, tok, v)
+				o := outcome{Accepted: err == nil, Err: errStr(err)}
+				if err == nil {
+					o.View = viewOfObj(c.Kind, claims)
+				} else if !isNil(claims) {
+					res.Fail("C02:claims-with-error:"+c.Kind, "claims returned together with error %v", err)
+				}
+				if tr != nil {
+					o.Note = fmt.Sprintf("call=%d fetches=%d", i, tr.n-before)
+					if tr.n == before {
+						res.Label("remote:served-from-cache")
+					} else {
+						res.Label("remote:fetched")
+					}
+					if tr.n-before > 1 {
+						res.Label("remote:fetched>1")
+					}
+				}
+				outs = append(outs, o)
 			}
-			outs = append(outs, o)
+			return outs
 		}
-		return outs
+		return in
 
-	case kOPAccess:
+	case kOPAccess, kProvAcc:
 		st := newStore(c)
-		ks := &op.OpenIDKeySet{Storage: st.Shaped(vkit.FullCaps)}
-		var opts []op.AccessTokenVerifierOpt
-		if len(c.Algs) > 0 {
-			opts = append(opts, op.WithSupportedAccessTokenSigningAlgorithms(c.Algs...))
+		var verifier func() *op.AccessTokenVerifier
+		if c.Kind == kOPAccess {
+			ks := &op.OpenIDKeySet{Storage: st.Shaped(vkit.FullCaps)}
+			var opts []op.AccessTokenVerifierOpt
+			if len(c.Algs) > 0 {
+				opts = append(opts, op.WithSupportedAccessTokenSigningAlgorithms(c.Algs...))
+			}
+			v := op.NewAccessTokenVerifier(issuer, ks, opts...)
+			verifier = func() *op.AccessTokenVerifier { return v }
+		} else {
+			p := buildProvider(st, "provider").Provider
+			ctx = op.ContextWithIssuer(ctx, issuer)
+			verifier = func() *op.AccessTokenVerifier { return p.AccessTokenVerifier(ctx) } // as the handlers obtain it, per request
 		}
-		v := op.NewAccessTokenVerifier(issuer, ks, opts...)
-		claims, err := op.VerifyAccessToken[*oidc.AccessTokenClaims](ctx, tok, v)
-		o := outcome{Accepted: err == nil, Err: errStr(err)}
-		if err == nil {
-			o.View = viewOfObj(c.Kind, claims)
-		} else if !isNil(claims) {
-			res.Fail("C02:claims-with-error:"+c.Kind, "claims returned together with error %v", err)
-		}
-		return []outcome{o}
+		return &instance{
+			setKeys: func(keys, keys2 []KeyEntry) { storeKeys(st, c.Kind, keys, keys2) },
+			verify: func(tok, _ string, _ int, res *vkit.Result) []outcome {
+				claims, err := op.VerifyAccessToken[*oidc.AccessTokenClaims](ctx, tok, verifier())
+				o := outcome{Accepted: err == nil, Err: errStr(err)}
+				if err == nil {
+					o.View = viewOfObj(c.Kind, claims)
+				} else if !isNil(claims) {
+					res.Fail("C02:claims-with-error:"+c.Kind, "claims returned together with error %v", err)
+				}
+				return one(o)
+			}}
 
-	case kOPHint:
+	case kOPHint, kProvHint:
 		st := newStore(c)
-		ks := &op.OpenIDKeySet{Storage: st.Shaped(vkit.FullCaps)}
-		var opts []op.IDTokenHintVerifierOpt
-		if len(c.Algs) > 0 {
-			opts = append(opts, op.WithSupportedIDTokenHintSigningAlgorithms(c.Algs...))
+		var verifier func() *op.IDTokenHintVerifier
+		if c.Kind == kOPHint {
+			ks := &op.OpenIDKeySet{Storage: st.Shaped(vkit.FullCaps)}
+			var opts []op.IDTokenHintVerifierOpt
+			if len(c.Algs) > 0 {
+				opts = append(opts, op.WithSupportedIDTokenHintSigningAlgorithms(c.Algs...))
+			}
+			v := op.NewIDTokenHintVerifier(issuer, ks, opts...)
+			verifier = func() *op.IDTokenHintVerifier { return v }
+		} else {
+			p := buildProvider(st, "provider").Provider
+			ctx = op.ContextWithIssuer(ctx, issuer)
+			verifier = func() *op.IDTokenHintVerifier { return p.IDTokenHintVerifier(ctx) }
 		}
-		v := op.NewIDTokenHintVerifier(issuer, ks, opts...)
-		claims, err := op.VerifyIDTokenHint[*oidc.IDTokenClaims](ctx, tok, v)
-		o := outcome{Accepted: err == nil, Err: errStr(err)}
-		if err == nil {
-			o.View = viewOfObj(c.Kind, claims)
-		} else if !isNil(claims) {
-			// claims + IDTokenHintExpiredError is a documented combination, but nothing here is expired
-			res.Fail("C02:claims-with-error:"+c.Kind, "claims returned together with error %v", err)
-		}
-		return []outcome{o}
+		return &instance{
+			setKeys: func(keys, keys2 []KeyEntry) { storeKeys(st, c.Kind, keys, keys2) },
+			verify: func(tok, _ string, _ int, res *vkit.Result) []outcome {
+				claims, err := op.VerifyIDTokenHint[*oidc.IDTokenClaims](ctx, tok, verifier())
+				o := outcome{Accepted: err == nil, Err: errStr(err)}
+				if err == nil {
+					o.View = viewOfObj(c.Kind, claims)
+				} else if !isNil(claims) {
+					// claims + IDTokenHintExpiredError is a documented combination, but nothing here is expired
+					res.Fail("C02:claims-with-error:"+c.Kind, "claims returned together with error %v", err)
+				}
+				return one(o)
+			}}
 
 	case kAssert, kAssertKS:
 		var v *op.JWTProfileVerifier
@@ -225,83 +295,105 @@ func execute(c Case, tok string, res *vkit.Result) []outcome {
 		if c.Delegation {
 			vopts = append(vopts, op.SubjectCheck(func(*oidc.JWTTokenRequest) error { return nil }))
 		}
+		in := &instance{}
 		if c.Kind == kAssert {
-			v = op.NewJWTProfileVerifier(newStore(c), issuer, 0, 0, vopts...)
+			st := newStore(c)
+			v = op.NewJWTProfileVerifier(st, issuer, 0, 0, vopts...)
+			in.setKeys = func(keys, keys2 []KeyEntry) { storeKeys(st, c.Kind, keys, keys2) }
 		} else {
-			v = op.NewJWTProfileVerifierKeySet(&staticKeySet{keys: jwks(c.Keys), multi: c.MultiKS}, issuer, 0, 0, vopts...)
+			sks := &staticKeySet{keys: jwks(c.Keys), multi: c.MultiKS}
+			v = op.NewJWTProfileVerifierKeySet(sks, issuer, 0, 0, vopts...)
+			in.setKeys = func(keys, _ []KeyEntry) { sks.keys = jwks(keys) }
 		}
-		req, err := op.VerifyJWTAssertion(ctx, tok, v)
-		o := outcome{Accepted: err == nil, Err: errStr(err)}
-		if err == nil {
-			o.View = viewOfObj(c.Kind, req)
-		} else if req != nil {
-			res.Fail("C02:claims-with-error:"+c.Kind, "request returned together with error %v", err)
+		in.verify = func(tok, _ string, _ int, res *vkit.Result) []outcome {
+			req, err := op.VerifyJWTAssertion(ctx, tok, v)
+			o := outcome{Accepted: err == nil, Err: errStr(err)}
+			if err == nil {
+				o.View = viewOfObj(c.Kind, req)
+			} else if req != nil {
+				res.Fail("C02:claims-with-error:"+c.Kind, "request returned together with error %v", err)
+			}
+			return one(o)
 		}
-		return []outcome{o}
+		return in
 
 	case kReqObj:
 		st := newStore(c)
-		ar := &oidc.AuthRequest{ClientID: who(c), RedirectURI: redirect, ResponseType: oidc.ResponseTypeCode,
-			Scopes: oidc.SpaceDelimitedArray{"openid"}, State: qState, Nonce: qNonce, RequestParam: tok}
-		err := op.ParseRequestObject(ctx, ar, st.Shaped(vkit.FullCaps), issuer)
-		o := outcome{Accepted: err == nil, Err: errStr(err)}
-		if err == nil {
-			o.View = map[string]string{"state": ar.State, "nonce": ar.Nonce}
-		}
-		return []outcome{o}
+		storage := st.Shaped(vkit.FullCaps)
+		return &instance{
+			setKeys: func(keys, keys2 []KeyEntry) { storeKeys(st, c.Kind, keys, keys2) },
+			verify: func(tok, who string, _ int, res *vkit.Result) []outcome {
+				ar := &oidc.AuthRequest{ClientID: who, RedirectURI: redirect, ResponseType: oidc.ResponseTypeCode,
+					Scopes: oidc.SpaceDelimitedArray{"openid"}, State: qState, Nonce: qNonce, RequestParam: tok}
+				err := op.ParseRequestObject(ctx, ar, storage, issuer)
+				o := outcome{Accepted: err == nil, Err: errStr(err)}
+				if err == nil {
+					o.View = map[string]string{"state": ar.State, "nonce": ar.Nonce}
+				}
+				return one(o)
+			}}
 
 	case kReqHTTP, kHintHTTP:
 		st := newStore(c)
-		sut, err := vkit.Build(vkit.DefaultProviderSpec(c.Router), st)
-		if err != nil {
-			panic("harness: build provider: " + err.Error())
-		}
+		sut := buildProvider(st, c.Router)
 		ag := vkit.NewAgent(sut)
-		q := url.Values{"redirect_uri": {redirect}, "response_type": {"code"}, "scope": {"openid"}, "state": {qState}, "nonce": {qNonce}}
-		if c.Kind == kReqHTTP {
-			q.Set("client_id", who(c))
-			q.Set("request", tok)
-		} else {
-			q.Set("client_id", "c1")
-			q.Set("id_token_hint", tok)
-		}
-		resp := ag.Authorize(q)
-		if resp.Panic != nil {
-			res.Fail("C02:panic@"+resp.PanicFrame(), "authorize endpoint panicked: %v", resp.Panic)
-			return nil
-		}
-		o := outcome{Note: fmt.Sprintf("status=%d", resp.Status)}
-		id, ok := vkit.LoginRequestID(resp)
-		if !ok {
-			o.Err = resp.Describe()
-			if len(o.Err) > 200 {
-				o.Err = o.Err[:200]
-			}
-			return []outcome{o}
-		}
-		snap, ok := st.AuthReqSnapshot(id)
-		if !ok {
-			o.Err = "auth request " + id + " not in storage"
-			return []outcome{o}
-		}
-		if c.Kind == kReqHTTP {
-			if snap.State == qState && snap.Nonce == qNonce {
-				o.Note += " object-not-applied"
-				return []outcome{o}
-			}
-			o.Accepted = true
-			o.View = map[string]string{"state": snap.State, "nonce": snap.Nonce}
-		} else {
-			if snap.HintSubject == "" {
-				o.Note += " hint-not-applied"
-				return []outcome{o}
-			}
-			o.Accepted = true
-			o.View = map[string]string{"sub": snap.HintSubject}
-		}
-		return []outcome{o}
+		return &instance{
+			setKeys: func(keys, keys2 []KeyEntry) { storeKeys(st, c.Kind, keys, keys2) },
+			verify: func(tok, who string, _ int, res *vkit.Result) []outcome {
+				q := url.Values{"redirect_uri": {redirect}, "response_type": {"code"}, "scope": {"openid"}, "state": {qState}, "nonce": {qNonce}}
+				if c.Kind == kReqHTTP {
+					q.Set("client_id", who)
+					q.Set("request", tok)
+				} else {
+					q.Set("client_id", "c1")
+					q.Set("id_token_hint", tok)
+				}
+				resp := ag.Authorize(q)
+				if resp.Panic != nil {
+					res.Fail("C02:panic@"+resp.PanicFrame(), "authorize endpoint panicked: %v", resp.Panic)
+					return nil
+				}
+				o := outcome{Note: fmt.Sprintf("status=%d", resp.Status)}
+				id, ok := vkit.LoginRequestID(resp)
+				if !ok {
+					o.Err = resp.Describe()
+					if len(o.Err) > 200 {
+						o.Err = o.Err[:200]
+					}
+					return one(o)
+				}
+				snap, ok := st.AuthReqSnapshot(id)
+				if !ok {
+					o.Err = "auth request " + id + " not in storage"
+					return one(o)
+				}
+				if c.Kind == kReqHTTP {
+					if snap.State == qState && snap.Nonce == qNonce {
+						o.Note += " object-not-applied"
+						return one(o)
+					}
+					o.Accepted = true
+					o.View = map[string]string{"state": snap.State, "nonce": snap.Nonce}
+				} else {
+					if snap.HintSubject == "" {
+						o.Note += " hint-not-applied"
+						return one(o)
+					}
+					o.Accepted = true
+					o.View = map[string]string{"sub": snap.HintSubject}
+				}
+				return one(o)
+			}}
 	}
 	return nil
+}
+
+func buildProvider(st *vkit.Store, router string) *vkit.SUT {
+	sut, err := vkit.Build(vkit.DefaultProviderSpec(router), st)
+	if err != nil {
+		panic("harness: build provider: " + err.Error())
+	}
+	return sut
 }
 
 func validCase(c Case) string {
@@ -312,7 +404,11 @@ func validCase(c Case) string {
 	if !ok && c.Kind != kFindKey {
 		return "unknown kind"
 	}
-	for _, e := range append(append([]KeyEntry{}, c.Keys...), c.Keys2...) {
+	all := append(append([]KeyEntry{}, c.Keys...), c.Keys2...)
+	for _, s := range c.Seq {
+		all = append(append(all, s.Keys...), s.Keys2...)
+	}
+	for _, e := range all {
 		if !knownKey(e.Key) {
 			return "unknown pool key"
 		}
@@ -323,13 +419,78 @@ func validCase(c Case) string {
 		}
 		return ""
 	}
-	if !knownKey(c.Tok.Key) || !vkit.AlgFitsKey(c.Tok.Alg, vkit.Key(c.Tok.Key)) {
-		return "signing key does not fit algorithm"
+	toks := []TokSpec{c.Tok}
+	for _, s := range c.Seq {
+		toks = append(toks, s.Tok)
+	}
+	for _, tk := range toks {
+		if !knownKey(tk.Key) || !vkit.AlgFitsKey(tk.Alg, vkit.Key(tk.Key)) {
+			return "signing key does not fit algorithm"
+		}
+	}
+	if len(c.Seq) > 8 {
+		return "sequence too long"
+	}
+	if c.Raw != nil && len(c.Seq) > 0 {
+		return "raw token with sequence"
 	}
 	if isHTTP(c.Kind) && c.Router != "provider" && c.Router != "legacy" {
 		return "unknown router"
 	}
 	return ""
+}
+
+// call is one verification on the instance: the key sets in force, the token presented.
+type call struct {
+	Mut         string
+	Keys, Keys2 []KeyEntry
+	Tok         TokSpec
+	From        int
+}
+
+// plan lists the calls of a case: the first token on the initial key sets, then the steps of the sequence.
+func plan(c Case) []call {
+	cur := call{Keys: c.Keys, Keys2: c.Keys2, Tok: c.Tok}
+	out := []call{cur}
+	for _, s := range c.Seq {
+		cur.Mut, cur.From, cur.Tok = s.Mut, s.From, s.Tok
+		if s.Mut != "" {
+			cur.Keys, cur.Keys2 = s.Keys, s.Keys2
+		}
+		out = append(out, cur)
+	}
+	return out
+}
+
+// combine: verdict for a verifier that may select the key from any of several key sets (the rp remote key set: what is
+// published now, what its cache holds). Rejection is demanded only if every set demands it, acceptance only if every set does.
+func combine(vs []verdict) verdict {
+	v := vs[0]
+	allReject, allAccept := true, true
+	for _, x := range vs {
+		allReject = allReject && len(x.Reject) > 0
+		allAccept = allAccept && len(x.Reject) == 0 && len(x.Grey) == 0
+		if x.Candidates > v.Candidates {
+			v.Candidates = x.Candidates
+		}
+	}
+	switch {
+	case allReject, allAccept:
+		return v
+	}
+	v.Reject, v.AcceptClass = nil, ""
+	v.Grey = uniq(append(v.Grey, "cache-may-differ"))
+	return v
+}
+
+func verdictClass(v verdict) string {
+	switch {
+	case len(v.Reject) > 0:
+		return "reject:" + strings.Join(v.Reject, "+")
+	case len(v.Grey) > 0:
+		return "grey:" + strings.Join(v.Grey, "+")
+	}
+	return "accept:" + v.AcceptClass
 }
 
 func run(c Case) (res *vkit.Result) {
@@ -361,21 +522,6 @@ func run(c Case) (res *vkit.Result) {
 	if c.Router != "" {
 		res.Label("router:" + c.Router)
 	}
-	b, err := buildToken(c)
-	if err != nil {
-		res.Grey = true
-		res.Label("invalid-case")
-		res.Info = err.Error()
-		return res
-	}
-	v := model(c, b)
-	outs := execute(c, b.Token, res)
-	want := viewOfJSON(c.Kind, b.SignedP)
-	var evil map[string]string
-	if b.EvilP != nil {
-		evil = viewOfJSON(c.Kind, b.EvilP)
-	}
-
 	// (the evidence keeps the 80 most frequent labels: relation / form / single manipulations are part of Key and Info only)
 	if c.MultiKS {
 		res.Label("keyset:verify-multi")
@@ -383,70 +529,237 @@ func run(c Case) (res *vkit.Result) {
 	if c.Delegation {
 		res.Label("delegation:sub=" + map[bool]string{true: "issuer", false: "other"}[c.Tok.Sub == ""])
 	}
-	baseOK := len(v.Reject) == len(uniq(append([]string{}, b.Reject...))) // nothing but the manipulations speaks against the token
-	if baseOK && c.Raw == nil {
-		res.Label("base-acceptable")
-		for _, m := range c.Tok.Manips {
-			res.Label("attack:" + m.Kind) // manipulation applied to a token that would otherwise be accepted
+	calls := plan(c)
+	// every token is built before the first call (an invalid case must not leave a half-run instance behind)
+	builts := make([]*built, len(calls))
+	ccs := make([]Case, len(calls))
+	for i, cl := range calls {
+		cc := c
+		cc.Keys, cc.Keys2, cc.Tok, cc.Seq = cl.Keys, cl.Keys2, cl.Tok, nil
+		var base *vkit.Token
+		if j := cl.From - 1; j >= 0 && j < i && sameSigning(calls[j].Tok, cl.Tok) {
+			base = &builts[j].Genuine
 		}
-	}
-	if b.EvilP != nil && b.SplitsTo == 3 {
-		res.Label("smuggle-armed") // the three-part split of the serialized token yields the attacker's payload
-	}
-	switch {
-	case len(v.Reject) > 0:
-		res.Label("must-reject")
-		if len(v.Reject) == 1 {
-			res.Label("sole-reason:" + v.Reject[0]) // everything else about the token is fine: the class that decides sensitivity
+		b, err := buildTokenFrom(cc, base)
+		if err != nil {
+			res.Grey = true
+			res.Label("invalid-case")
+			res.Info = err.Error()
+			return res
 		}
-	case len(v.Grey) > 0:
-		res.Label("grey")
-		for _, g := range v.Grey {
-			res.Label("grey:" + g)
-		}
-		res.Grey = true
-	default:
-		res.Label("must-accept", "must-accept:"+c.Kind, "accept:"+v.AcceptClass)
+		builts[i], ccs[i] = b, cc
 	}
-	for i, o := range outs {
-		call := ""
-		if len(outs) > 1 {
-			call = fmt.Sprintf(" (call %d of %d on the same key set)", i+1, len(outs))
+	if len(calls) > 1 {
+		res.Label("seq", fmt.Sprintf("seq:calls=%d", len(calls)))
+	}
+	inst := newInstance(c)
+	var infos []map[string]any
+	var keyParts []string
+	allGrey := true
+	accepted := make([]bool, len(calls)) // the instance accepted the token of call i
+	for i, cl := range calls {
+		cc, b := ccs[i], builts[i]
+		if i > 0 && cl.Mut != "" {
+			inst.setKeys(cl.Keys, cl.Keys2)
+			m := cl.Mut
+			if k := strings.IndexByte(m, ':'); k >= 0 {
+				m = m[k+1:]
+			}
+			res.Label("seq:keys:" + m)
+		}
+		v := model(cc, b)
+		if inst.mayHold != nil {
+			vs := []verdict{v}
+			for _, held := range inst.mayHold() {
+				if !sameKeys(held, cl.Keys) {
+					hc := cc
+					hc.Keys = held
+					vs = append(vs, model(hc, b))
+				}
+			}
+			if len(vs) > 1 {
+				v = combine(vs)
+			}
+		}
+		times := 1
+		if i == 0 && c.Kind == kRPRemote && c.Warm {
+			times = 3
+		}
+		outs := inst.verify(b.Token, who(cc), times, res)
+		want := viewOfJSON(c.Kind, b.SignedP)
+		var evil map[string]string
+		if b.EvilP != nil {
+			evil = viewOfJSON(c.Kind, b.EvilP)
+		}
+		baseOK := len(v.Reject) == len(uniq(append([]string{}, b.Reject...))) // nothing but the manipulations speaks against the token
+		if baseOK && c.Raw == nil {
+			res.Label("base-acceptable")
+			for _, m := range cl.Tok.Manips {
+				res.Label("attack:" + m.Kind) // manipulation applied to a token that would otherwise be accepted
+			}
+		}
+		if b.EvilP != nil && b.SplitsTo == 3 {
+			res.Label("smuggle-armed") // the three-part split of the serialized token yields the attacker's payload
 		}
 		switch {
-		case len(v.Reject) > 0 && o.Accepted:
-			res.Fail("C02:sound:"+c.Kind+":"+strings.Join(v.Reject, "+"), "%s accepted a token that must be rejected (%v)%s; believed %v; token %s", c.Kind, v.Reject, call, o.View, clip(b.Token))
-		case len(v.Reject) == 0 && len(v.Grey) == 0 && !o.Accepted:
-			res.Fail("C02:complete:"+c.Kind+":"+v.AcceptClass, "%s rejected a genuine token signed with an allowed algorithm by a trusted key (%s)%s: %s", c.Kind, v.AcceptClass, call, o.Err)
-		}
-		if o.Accepted && !reflect.DeepEqual(o.View, want) {
-			whose := "neither the signed nor the embedded payload"
-			if evil != nil && reflect.DeepEqual(o.View, evil) {
-				whose = "the attacker's embedded payload"
+		case len(v.Reject) > 0:
+			res.Label("must-reject")
+			if len(v.Reject) == 1 {
+				res.Label("sole-reason:" + v.Reject[0]) // everything else about the token is fine: the class that decides sensitivity
 			}
-			res.Fail("C02:claims-not-signed:"+c.Kind, "%s handed back claims that are not the signed payload%s: got %v (%s), signed %v; token %s", c.Kind, call, o.View, whose, want, clip(b.Token))
+			allGrey = false
+		case len(v.Grey) > 0:
+			res.Label("grey")
+			for _, g := range v.Grey {
+				res.Label("grey:" + g)
+			}
+		default:
+			res.Label("must-accept", "must-accept:"+c.Kind, "accept:"+v.AcceptClass)
+			allGrey = false
+		}
+		hist := ""
+		if i > 0 {
+			// classes of later calls: what the instance has seen before is what a stateful defect would abuse
+			src := "fresh"
+			if j := cl.From - 1; j >= 0 && j < i {
+				src = "derived"
+				if accepted[j] {
+					src = "derived-of-accepted"
+				}
+				if len(cl.Tok.Manips) == 0 {
+					src += ":replay"
+				} else {
+					src += ":manipulated"
+				}
+			}
+			res.Label("seq:" + src)
+			switch {
+			case len(v.Reject) > 0:
+				res.Label("seq:" + src + ":must-reject")
+				if len(v.Reject) == 1 {
+					res.Label("seq:sole-reason:" + v.Reject[0])
+				}
+			case len(v.Grey) == 0:
+				res.Label("seq:" + src + ":must-accept")
+			}
+			hist = "; history on this instance: " + history(calls[:i+1], accepted[:i])
+			if len(hist) > 400 { // (the driver prints 600 characters of a message; the replay file has everything)
+				hist = hist[:180] + " ... " + hist[len(hist)-215:]
+			}
+		}
+		for k, o := range outs {
+			callNo := ""
+			if len(outs) > 1 || len(calls) > 1 {
+				callNo = fmt.Sprintf(" (call %d of %d on the same instance", i+1, len(calls))
+				if len(outs) > 1 {
+					callNo += fmt.Sprintf(", presented %d of %d times", k+1, len(outs))
+				}
+				callNo += ")"
+			}
+			switch {
+			case len(v.Reject) > 0 && o.Accepted:
+				res.Fail("C02:sound:"+c.Kind+":"+strings.Join(v.Reject, "+"), "%s accepted a token that must be rejected (%v)%s; believed %v%s; token %s", c.Kind, v.Reject, callNo, o.View, hist, clipTok(b.Token, hist))
+			case len(v.Reject) == 0 && len(v.Grey) == 0 && !o.Accepted:
+				res.Fail("C02:complete:"+c.Kind+":"+v.AcceptClass, "%s rejected a genuine token signed with an allowed algorithm by a trusted key (%s)%s: %s%s", c.Kind, v.AcceptClass, callNo, o.Err, hist)
+			}
+			if o.Accepted && !reflect.DeepEqual(o.View, want) {
+				whose := "neither the signed nor the embedded payload"
+				if evil != nil && reflect.DeepEqual(o.View, evil) {
+					whose = "the attacker's embedded payload"
+				}
+				res.Fail("C02:claims-not-signed:"+c.Kind, "%s handed back claims that are not the signed payload%s: got %v (%s), signed %v%s; token %s", c.Kind, callNo, o.View, whose, want, hist, clipTok(b.Token, hist))
+			}
+		}
+		accepted[i] = len(outs) > 0
+		for _, o := range outs {
+			accepted[i] = accepted[i] && o.Accepted
+		}
+		info := map[string]any{"model": v, "outcomes": outs, "form": b.Form, "parts": b.SplitsTo, "kid": b.EffKID}
+		if cl.Mut != "" {
+			info["keys"] = cl.Mut
+		}
+		infos = append(infos, info)
+		if v.Candidates >= 2 || len(cl.Tok.Manips) > 0 {
+			res.NonTrivial = true
+		}
+		if i > 0 {
+			keyParts = append(keyParts, fmt.Sprintf("%s>%d|%v|%s|%s|%s|%v|%s", cl.Mut, cl.From, manipNamesOf(cl.Tok), keySetShape(cl.Keys), keySetShape(cl.Keys2), cl.Tok.Alg, cl.Tok.HasKID, verdictClass(v)))
 		}
 	}
-	res.Info = map[string]any{"model": v, "outcomes": outs, "form": b.Form, "parts": b.SplitsTo, "kid": b.EffKID}
-	res.NonTrivial = len(c.Tok.Manips) > 0 || c.Raw != nil || v.Candidates >= 2
-	vc := "accept:" + v.AcceptClass
-	if len(v.Reject) > 0 {
-		vc = "reject:" + strings.Join(v.Reject, "+")
-	} else if len(v.Grey) > 0 {
-		vc = "grey:" + strings.Join(v.Grey, "+")
+	res.Grey = allGrey
+	if len(calls) == 1 {
+		res.Info = infos[0] // (map with "outcomes": TestFuzzSeeds reads it)
+	} else {
+		res.Info = map[string]any{"calls": infos, "outcomes": infos[0]["outcomes"]}
 	}
-	res.Key = fmt.Sprintf("%s|%s|%v|%s|%s|%v|%s|%s|%v|%s|%v%v", c.Kind, c.Router, manipNames(c), keySetShape(c.Keys), keySetShape(c.Keys2), c.Algs, c.Tok.Alg, c.Tok.Relation, c.Tok.HasKID, vc, c.Warm, c.SkipRemote) + "|" + c.Tok.Sub + fmt.Sprint(c.MultiKS)
+	res.NonTrivial = res.NonTrivial || c.Raw != nil || len(calls) > 1
+	v0, _ := infos[0]["model"].(verdict)
+	res.Key = fmt.Sprintf("%s|%s|%v|%s|%s|%v|%s|%s|%v|%s|%v%v", c.Kind, c.Router, manipNames(c), keySetShape(c.Keys), keySetShape(c.Keys2), c.Algs, c.Tok.Alg, c.Tok.Relation, c.Tok.HasKID, verdictClass(v0), c.Warm, c.SkipRemote) + "|" + c.Tok.Sub + fmt.Sprint(c.MultiKS)
 	if c.Raw != nil {
 		res.Key += "|" + string(c.Raw)
+	}
+	if len(keyParts) > 0 {
+		res.Key += "|seq:" + strings.Join(keyParts, ";")
 	}
 	return res
 }
 
+// history renders the calls made so far on the instance (for violation messages).
+func history(calls []call, accepted []bool) string {
+	var parts []string
+	for i, cl := range calls {
+		s := fmt.Sprintf("#%d", i+1)
+		if cl.Mut != "" && i > 0 {
+			s += " [keys " + cl.Mut + " -> " + keySetText(cl.Keys)
+			if len(cl.Keys2) > 0 {
+				s += " / " + keySetText(cl.Keys2)
+			}
+			s += "]"
+		} else if i == 0 {
+			s += " [keys " + keySetText(cl.Keys)
+			if len(cl.Keys2) > 0 {
+				s += " / " + keySetText(cl.Keys2)
+			}
+			s += "]"
+		}
+		s += fmt.Sprintf(" %s by %s kid=%q", cl.Tok.Alg, cl.Tok.Key, cl.Tok.KID)
+		if cl.From > 0 {
+			s += fmt.Sprintf(" derived from #%d", cl.From)
+		}
+		if len(cl.Tok.Manips) > 0 {
+			s += fmt.Sprintf(" %v", manipNamesOf(cl.Tok))
+		}
+		if i < len(accepted) {
+			s += map[bool]string{true: " => accepted", false: " => rejected"}[accepted[i]]
+		} else {
+			s += " => this call"
+		}
+		parts = append(parts, s)
+	}
+	return strings.Join(parts, ", ")
+}
+
+func keySetText(keys []KeyEntry) string {
+	var parts []string
+	for _, e := range keys {
+		parts = append(parts, fmt.Sprintf("%s:%q:%s", e.Key, e.KID, e.Use))
+	}
+	return "{" + strings.Join(parts, " ") + "}"
+}
+
 func clip(s string) string {
-	if len(s) > 700 {
-		return s[:700] + "..."
+	if len(s) > 300 {
+		return s[:300] + "..."
 	}
 	return s
+}
+
+// clipTok: in a sequence the message carries the history instead of most of the token
+func clipTok(tok, hist string) string {
+	if hist != "" && len(tok) > 60 {
+		return tok[:60] + "..."
+	}
+	return clip(tok)
 }
 
 // ---- oidc.FindMatchingKey directly ------------------------------------------------
